@@ -828,14 +828,18 @@ def c16(tier):
     b = build("pipe")
     d, env = sched_env("c16")
     res = [run_space(b, "mirror.len", tier, env=env, hang_s=60), run_space(b, "pipe.c16", tier, env=env, hang_s=180)]
+    env2 = dict(env)
+    env2.pop("VERIF_SCHED", None)  # these workers wait for a child in its own network namespace
+    res.append(run_space(b, "mirror.slowlink", tier, env=env2, hang_s=400))
     import shutil
     shutil.rmtree(d, ignore_errors=True)
     inc = [r.space for r in res if not r.complete]
     return finish("C16", tier, res,
                   rule="mirror.len: the real mirrorIPFIX / mirrorSFlow goroutines driven through their real channel and a real raw socket over loopback: max-udp-size {64, 576, 1500} x target port {10024, 1024, 65535} x exporter {192.1.1.1, 10.0.0.1, 127.0.0.2, 255.255.255.254} x address form {4-byte, 16-byte} x 2 fills x EVERY payload length 0..max (quick: every length for the first exporter, every 7th plus both ends for the others; every port only with the smallest buffer). "
                        "Oracle: exactly one datagram reaches the UDP listener, payload identical, source address = exporter, and the IP header captured on a raw IPPROTO_UDP socket has total length 20+8+n, UDP length 8+n, IHL 5, destination 127.0.0.1 and the target port. "
+                       "mirror.slowlink: the environment answer loopback never gives - a link towards the target that is slower than the burst. Each case runs the real mirror goroutine in a child process with a network namespace of its own: veth pair, sending side shaped by a token bucket (8 Mbit/s, queue 4 MB: the shaper drops nothing), AF_PACKET capture on the far end; protocol x burst {300, 600} (thorough {1, 100, 300, 600, 1200}) x payload lengths {1000..1400, 4..200} (thorough also 1400..1472 and 600). Oracle: every datagram of the burst arrives unchanged (addresses, lengths, payload, once), the goroutine does not crash, and a datagram handed over after the link has drained is mirrored too. Ends are state barriers (goroutine state, channel length, shaper backlog). "
                        "pipe.c16: the ipfix and sflow pipelines with mirroring enabled under the scheduler: published payloads equal the standalone decodes (mirroring never changes what is published), the mirror goroutines receive every datagram unchanged, no race report.",
-                  assumptions=PIPE_ASSUME + ["CAP_NET_RAW is required (present in this sandbox type); without it the space reports exhaustive=false", "IPv4 mirror targets only (the IPv6 path leaves the UDP checksum TODO in the repository and needs a routable IPv6 loopback)"], t0=t0)
+                  assumptions=PIPE_ASSUME + ["CAP_NET_RAW is required (present in this sandbox type); without it the space reports exhaustive=false", "mirror.slowlink needs CLONE_NEWNET, ip and tc (present in this sandbox type); where the namespace or the shaper cannot be built its cases are skipped and the space reports exhaustive=false", "IPv4 mirror targets only (the IPv6 path leaves the UDP checksum TODO in the repository and needs a routable IPv6 loopback)"], t0=t0)
 
 
 @check("C14")
